@@ -2,7 +2,7 @@
 // handler, one forked child per case so that a sanitizer abort / crash / hang is attributed
 // to the case.   usage: h_solread <cases file> <work dir>
 //   case <id> <fx (model flag, ignored here)> <nVars> <nCons> <optRv> <dualAct> <primalAct> <sufAct> <hex bytes | ->
-// prints:  <id> code=<Code> msg=<0|1> | <event> ; <event> ...      or   <id> ABORT <class>
+// prints:  <id> code=<Code> msg=<0|1> | <event> ; <event> ... || emsg=<hex of the error message>      or   <id> ABORT <class>
 #include <unistd.h>
 #include <sys/wait.h>
 #include <signal.h>
@@ -73,7 +73,7 @@ int main(int argc, char** argv) {
       close(ep[0]);
       dup2(ep[1], 2);
       alarm(20);
-      std::string r = readWith(path, h);
+      std::string r = readWith(path, h, true);
       put(id + " " + r + "\n");
       _exit(0);
     }
